@@ -238,6 +238,8 @@ def judge(spec, result, solos):
             viols.append({"kind": "diverge:outcome", "actor": i, "detail": "different number of completed operations"})
             continue
         for k, (r, s) in enumerate(zip(tog, alone)):
+            if r.get("mutated_later") and not s.get("mutated_later"):
+                viols.append({"kind": "diverge:ast-mutated-later", "actor": i, "op": k, "detail": "the AST returned by this operation was modified afterwards (not so when the actor runs alone)"})
             if r.get("shared_nodes"):
                 viols.append({"kind": "shared-nodes", "actor": i, "op": k, "detail": "%d node objects shared with an AST returned earlier by another instance" % r["shared_nodes"]})
             if not compared(r, s):
